@@ -243,3 +243,34 @@ class GwTarget(object):
     def _private(self, **kwargs):
         self.log.append(("_private", dict(kwargs)))
         return "leak"
+
+
+@server.expose
+class TokenTarget(object):
+    """counts executions per unique token"""
+    def __init__(self):
+        self.executed = {}
+
+    def _count(self, token):
+        self.executed[token] = self.executed.get(token, 0) + 1
+
+    def echo(self, token):
+        self._count(token)
+        return token
+
+    def raiser(self, token):
+        self._count(token)
+        raise ValueError(token)
+
+    @server.oneway
+    def ow(self, token):
+        self._count(token)
+
+    @property
+    def attr(self):
+        self._count("attr")
+        return "attr-value"
+
+    def stream(self, token):
+        self._count(token)
+        return iter([token + "-0", token + "-1"])
